@@ -95,6 +95,19 @@ impl Outcome {
     }
 }
 
+// ---- tier knob -------------------------------------------------------------
+
+static THOROUGH: std::sync::atomic::AtomicBool = std::sync::atomic::AtomicBool::new(false);
+
+/// The thorough tier widens the bounds of every family (more parties, longer
+/// histories, larger bodies); recorded in replay files.
+pub fn set_thorough(on: bool) {
+    THOROUGH.store(on, std::sync::atomic::Ordering::Relaxed);
+}
+pub fn thorough() -> bool {
+    THOROUGH.load(std::sync::atomic::Ordering::Relaxed)
+}
+
 // ---- panic capture -------------------------------------------------------
 
 thread_local! {
